@@ -7,6 +7,7 @@
 package main
 
 import (
+	"encoding/json"
 	"fmt"
 	"math"
 	"regexp"
@@ -15,6 +16,7 @@ import (
 
 	"github.com/LindsayBradford/crem/internal/pkg/annealing/solution"
 	solcsv "github.com/LindsayBradford/crem/internal/pkg/annealing/solution/encoding/csv"
+	soljson "github.com/LindsayBradford/crem/internal/pkg/annealing/solution/encoding/json"
 	"github.com/LindsayBradford/crem/internal/pkg/model"
 	"github.com/LindsayBradford/crem/internal/pkg/model/archive"
 	"github.com/LindsayBradford/crem/internal/pkg/model/models/catchment"
@@ -179,6 +181,70 @@ func txAggregateOracle(c *catchInst, ds string, bits []int, where string, fails 
 			if s != c.grid(val, catchVarScale[k]) || c.grid(val, catchVarScale[k]) != totals[k] {
 				bad = "CSV solution file: " + f[0] + " value differs from the sum of its planning-unit columns (or from the model)"
 			}
+		}
+	}
+	// the same figures as the JSON marshaller writes them (detail-level JSON solution files, the engine's model and
+	// solution resources): numbers are localised strings, zero shares are left out
+	var jtext []byte
+	var jerr error
+	if panicked, what := protect(func() { jtext, jerr = new(soljson.Marshaler).Marshal(sol) }); panicked {
+		bad = "writing the JSON solution panicked: " + what
+		jerr = fmt.Errorf("panicked")
+	}
+	if jerr == nil {
+		var doc struct {
+			DecisionVariables []map[string]json.RawMessage
+		}
+		if e := json.Unmarshal(jtext, &doc); e != nil {
+			bad = "JSON solution does not parse: " + e.Error()
+		}
+		num := func(raw string) (float64, bool) {
+			clean := strings.Map(func(r rune) rune {
+				if (r >= '0' && r <= '9') || r == '.' || r == '-' || r == 'e' || r == 'E' || r == '+' {
+					return r
+				}
+				return -1
+			}, raw)
+			v, e := strconv.ParseFloat(clean, 64)
+			return v, e == nil
+		}
+		seen := 0
+		for _, dv := range doc.DecisionVariables {
+			var name, value string
+			json.Unmarshal(dv["Name"], &name)
+			json.Unmarshal(dv["Value"], &value)
+			k := -1
+			for i, n := range catchVarNames {
+				if n == name {
+					k = i
+				}
+			}
+			if k < 0 {
+				continue
+			}
+			seen++
+			val, ok := num(value)
+			var s int64
+			for key, raw := range dv {
+				if !strings.HasPrefix(key, "ValuePer") {
+					continue
+				}
+				var shares []map[string]string
+				if e := json.Unmarshal(raw, &shares); e != nil {
+					ok = false
+				}
+				for _, sh := range shares {
+					v, okv := num(sh["Value"])
+					ok = ok && okv
+					s += c.grid(v, catchVarScale[k])
+				}
+			}
+			if !ok || s != c.grid(val, catchVarScale[k]) || c.grid(val, catchVarScale[k]) != totals[k] {
+				bad = "JSON solution: " + name + " value differs from the sum of its listed planning-unit shares (or from the model)"
+			}
+		}
+		if seen != len(catchVarNames) && bad == "" {
+			bad = "JSON solution does not carry every decision variable"
 		}
 	}
 	if bad != "" {
